@@ -101,6 +101,12 @@ type SchedCfg struct {
 	// StallUnknown: goroutines that the harness cannot attribute to an instance may stall too (their
 	// stalls are not accounted to any instance: only for plans judged by oracles without timing bounds)
 	StallUnknown bool `json:"stall_unknown,omitempty"`
+	// InLock: probability that a yield site reached while the goroutine holds a library mutex (a
+	// nested lock acquisition or release, an application plug-in called under the mutex) parks it
+	// there - a pure reordering, zero virtual duration. Goroutines that then ask for a mutex owned by
+	// a parked goroutine are held back before their Lock call until it is released (0 = never: a
+	// goroutine that holds a lock is not parked).
+	InLock float64 `json:"in_lock,omitempty"`
 	// Free: free-run mode (C20): no central scheduling, store operations applied by the
 	// calling goroutine, observers off; used under the race detector.
 	Free bool `json:"free,omitempty"`
